@@ -367,7 +367,7 @@ def _show_table(t):
 
 
 # ---------------------------------------------------------------- implementation adapter
-def run_impl(case):
+def _run_local(case):
     import numpy as np
     import biotite.sequence as seq
     from biotite.sequence.align import KmerAlphabet
@@ -385,9 +385,83 @@ def run_impl(case):
         pass
 
     def arr(dt, vals):
+        """`list` / `tuple` / `<dtype>[@c|s|r|b|t]`: C-contiguous, strided view, read-only, byte-swapped, tuple"""
         if dt == "list":
             return list(vals)
-        return np.array(vals, dtype=NPDT[dt]) if vals else np.array([], dtype=NPDT[dt])
+        if dt == "tuple":
+            return tuple(vals)
+        base, _, form = dt.partition("@")
+        a = np.array(vals, dtype=NPDT[base]) if vals else np.array([], dtype=NPDT[base])
+        if form == "s":
+            big = np.zeros(2 * len(a) + 1, dtype=a.dtype)
+            big[1::2] = a
+            a = big[1::2]
+        elif form == "r":
+            a.setflags(write=False)
+        elif form == "b":
+            a = a.astype(a.dtype.newbyteorder())
+        elif form == "t":
+            return tuple(vals)
+        return a
+
+    # objects are REUSED inside one case (the model is stateless, so it plays the fresh object): any state an
+    # alphabet / mapper / k-mer alphabet keeps across calls becomes a disagreement
+    cache = {}
+
+    def A(spec, fresh=False):
+        if fresh or spec not in cache:
+            cache[spec] = _A(spec)
+        return cache[spec]
+
+    def KA(base_key, base, k, sp=None):
+        key = ("ka", base_key, k, repr(sp))
+        if key not in cache:
+            cache[key] = KmerAlphabet(base, k, sp)
+        return cache[key]
+
+    def RA(n):
+        if ("range", n) not in cache:
+            cache[("range", n)] = seq.Alphabet(range(n))
+        return cache[("range", n)]
+
+    def snapshot(s):
+        c = s.code
+        return (c.dtype.str, c.tobytes(), tuple(s.get_alphabet().get_symbols()) if len(s.get_alphabet()) < 400 else len(s.get_alphabet()))
+
+    def guarded(s, fn, others=()):
+        """run a mutating call; if it raises, the receiver (and the other sequences involved) must equal their snapshots"""
+        before = [snapshot(x) for x in (s,) + tuple(others)]
+        try:
+            return fn()
+        except Exception as e:  # noqa: BLE001
+            after = [snapshot(x) for x in (s,) + tuple(others)]
+            if after != before:
+                return _err(e) + "+MUTATED"
+            raise
+
+    def symform(a, toks, form):
+        """the same symbols in another spelling"""
+        if a.letter:
+            b = bytes(int(t) for t in toks)
+            if form in ("", "b"):
+                return b
+            chars = [chr(x) for x in b]
+            return {"s": "".join(chars), "l": chars, "t": tuple(chars), "aU": np.array(chars, dtype="U1") if chars else np.array([], dtype="U1"),
+                    "aS": np.array([bytes([x]) for x in b], dtype="S1") if chars else np.array([], dtype="S1"),
+                    "aO": np.array(chars + [None], dtype=object)[:-1], "n": np.str_("".join(chars)), "lb": [bytes([x]) for x in b]}[form]
+        syms = [tok_to_sym(t) for t in toks]
+        if form in ("", "l"):
+            return syms
+        if form == "t":
+            return tuple(syms)
+        if form == "aO":
+            o = np.empty(len(syms), dtype=object)
+            for i, x in enumerate(syms):
+                o[i] = x
+            return o
+        if form == "g":
+            return (x for x in syms)
+        return syms
 
     def push(s, a, fmt=None):
         regs.append((s, a))
@@ -397,36 +471,67 @@ def run_impl(case):
     def do(w):
         op = w[0]
         if op == "enc":
-            a = _A(w[1])
-            return "ok " + _ints(a.alph.encode_multiple(a.syms(_ptoks(w[2]))))
+            a = A(w[1])
+            return "ok " + _ints(a.alph.encode_multiple(symform(a, _ptoks(w[2]), w[3] if len(w) > 3 else "")))
         if op == "enc1":
-            a = _A(w[1])
+            a = A(w[1])
             return "ok " + str(int(a.alph.encode(a.sym(w[2]))))
         if op == "dec":
-            a = _A(w[1])
+            a = A(w[1])
             return "ok " + a.show(a.alph.decode_multiple(arr(w[2], _pints(w[3]))))
         if op == "dec1":
-            a = _A(w[1])
-            return "ok " + a.show1(a.alph.decode(int(w[2])))
+            a = A(w[1])
+            return "ok " + a.show1(a.alph.decode(_index(w[2])))
         if op == "newalph":
             return "ok " + str(len(_A(w[1]).alph))
         if op == "map":
-            a, b = _A(w[1]), _A(w[2])
-            m = seq.AlphabetMapper(a.alph, b.alph)
-            return "ok " + _ints(m[np.array(_pints(w[3]), dtype=np.uint64)])
+            a, b = A(w[1]), A(w[2])
+            if ("map", w[1], w[2]) not in cache:
+                cache[("map", w[1], w[2])] = seq.AlphabetMapper(a.alph, b.alph)
+            m = cache[("map", w[1], w[2])]
+            dt = w[4] if len(w) > 4 else "u64"
+            if dt == "scalar":          # one code after the other, as Python ints / numpy scalars
+                vals = _pints(w[3])
+                return "ok " + _ints(int(m[v if i % 2 else np.int64(v)]) for i, v in enumerate(vals))
+            return "ok " + _ints(m[arr(dt, _pints(w[3]))])
         if op == "extends":
-            a, b = _A(w[1]), _A(w[2])
+            a, b = A(w[1]), A(w[2])
             return "ok " + ("true" if a.alph.extends(b.alph) else "false")
         if op == "s_new":
-            a = _A(w[1])
+            a = A(w[1], fresh=len(regs) % 2 == 1)       # alternately the cached object and an equal, not identical one
             return push(seq.GeneralSequence(a.alph, a.syms(_ptoks(w[2]))), a)
         if op == "s_nuc":
             s = seq.NucleotideSequence(bytes(int(t) for t in _ptoks(w[1])).decode("latin-1"))
             return push(s, _NucA(s.get_alphabet()), lambda s, txt: f"{len(s.get_alphabet())} {txt}")
+        if op == "s_nuc2":
+            txt = bytes(int(t) for t in _ptoks(w[2])).decode("latin-1")
+            s = seq.NucleotideSequence(txt if len(regs) % 2 == 0 else list(txt), ambiguous=(w[1] == "T"))
+            return push(s, _NucA(s.get_alphabet()), lambda s, txt: f"{len(s.get_alphabet())} {txt}")
+        if op == "s_prot3":
+            items = [("" if t == "." else bytes(int(x) for x in t.split(".")).decode("latin-1")) for t in _ptoks(w[1])]
+            s = seq.ProteinSequence(items if len(regs) % 2 == 0 else tuple(items))
+            return push(s, _NucA(s.get_alphabet()))
+        if op == "common":
+            r = seq.common_alphabet([A(x).alph for x in w[1:]])
+            if r is None:
+                return "ok none"
+            for x in w[1:]:
+                if A(x).alph is r:
+                    return "ok " + _toks(A(x).toks)
+            return "ok not-one-of-the-inputs"
+        if op == "ainfo":
+            a = A(w[1])
+            al = a.alph
+            sym = a.sym(w[2]) if not a.letter else chr(int(w[2]))
+            its = a.show(list(al))
+            if its != a.show(al.get_symbols()):
+                return "ok iter-differs-from-get_symbols"
+            return f"ok {len(al)} {'true' if sym in al else 'false'} {'true' if al.is_letter_alphabet() else 'false'} {its}"
         if op == "s_prot":
             s = seq.ProteinSequence(bytes(int(t) for t in _ptoks(w[1])).decode("latin-1"))
             return push(s, _NucA(s.get_alphabet()))
-        if op in ("s_str", "s_code", "s_valid", "s_get", "s_set", "s_slice", "s_setslice", "s_rev", "s_copy", "s_compl", "s_setcode", "s_setarr", "s_pickle", "s_deepcopy"):
+        if op in ("s_str", "s_code", "s_valid", "s_get", "s_set", "s_slice", "s_setslice", "s_rev", "s_copy", "s_compl", "s_setcode", "s_setarr", "s_pickle", "s_deepcopy",
+                  "s_setsymbols", "s_info", "s_revv", "s_rmstops", "s_pos", "s_fancy", "s_mask", "s_slicestep"):
             i = int(w[1])
             if i >= len(regs):
                 return "ERR:noreg"
@@ -440,7 +545,9 @@ def run_impl(case):
             if op == "s_get":
                 return "ok " + a.show1(s[_index(w[2])])
             if op == "s_set":
-                s[_index(w[2])] = a.sym(w[3])
+                def f():
+                    s[_index(w[2])] = a.sym(w[3])
+                guarded(s, f)
                 return "ok " + _seq_tokens_safe((s, a))
             if op == "s_slice":
                 lo = None if w[2] == "-" else int(w[2])
@@ -449,8 +556,18 @@ def run_impl(case):
             if op == "s_setslice":
                 lo = None if w[2] == "-" else int(w[2])
                 hi = None if w[3] == "-" else int(w[3])
-                s[lo:hi] = a.syms(_ptoks(w[4]))
+                def f():
+                    s[lo:hi] = a.syms(_ptoks(w[4]))
+                guarded(s, f)
                 return "ok " + _seq_tokens_safe((s, a))
+            if op == "s_fancy":
+                idx = _pints(w[2])
+                return "ok " + _seq_tokens((s[np.array(idx, dtype=np.int64)] if w[3] == "a" else s[list(idx)], a))
+            if op == "s_mask":
+                return "ok " + _seq_tokens((s[np.array([c == "1" for c in w[2]], dtype=bool)], a))
+            if op == "s_slicestep":
+                lo, hi, st = (None if x == "-" else int(x) for x in w[2:5])
+                return "ok " + _seq_tokens((s[lo:hi:st], a))
             if op == "s_rev":
                 return push(s.reverse(), a)
             if op == "s_pickle":
@@ -466,16 +583,45 @@ def run_impl(case):
             if op == "s_setarr":
                 lo = None if w[2] == "-" else int(w[2])
                 hi = None if w[3] == "-" else int(w[3])
-                s[lo:hi] = arr(w[4], _pints(w[5]))
+                def f():
+                    s[lo:hi] = arr(w[4], _pints(w[5]))
+                guarded(s, f)
                 return "ok " + _seq_tokens_safe((s, a))
             if op == "s_setcode":
-                s.code = arr(w[2], _pints(w[3]))
+                def f():
+                    s.code = arr(w[2], _pints(w[3]))
+                guarded(s, f)
                 return "ok " + _seq_tokens_safe((s, a))
-        if op in ("s_add", "s_eq"):
+            if op == "s_setsymbols":
+                def f():
+                    s.symbols = a.syms(_ptoks(w[2]))
+                guarded(s, f)
+                return "ok " + _seq_tokens_safe((s, a))
+            if op == "s_info":
+                n = len(s)
+                it = list(s)
+                fr = s.get_symbol_frequency()
+                if list(fr.keys()) != list(s.get_alphabet().get_symbols()) or s.alphabet is not s.get_alphabet():
+                    return "ok frequency-keys-differ"
+                return f"ok {n} {a.show(it)} {_ints(fr.values())}"
+            if op == "s_revv":
+                return push(s.reverse(copy=False), a)
+            if op == "s_rmstops":
+                return push(s.remove_stops(), a)
+            if op == "s_pos":
+                ps = seq.PositionalSequence(s)
+                rec = ps.reconstruct()
+                if list(ps.code) != list(range(len(s))) or len(ps.get_alphabet()) != len(s):
+                    return "ok positional-code-wrong"
+                return f"ok {len(ps)} {a.show(rec.symbols)}"
+        if op in ("s_add", "s_eq", "s_astype"):
             i, j = int(w[1]), int(w[2])
             if i >= len(regs) or j >= len(regs):
                 return "ERR:noreg"
             (s1, a1), (s2, a2) = regs[i], regs[j]
+            if op == "s_astype":
+                guarded(s2, lambda: s1.as_type(s2), others=(s1,))
+                return "ok " + _seq_tokens_safe((s2, a2))
             if op == "s_eq":
                 return "ok " + ("true" if s1 == s2 else "false")
             r = s1 + s2
@@ -483,22 +629,37 @@ def run_impl(case):
             kind = 1 if isinstance(r, seq.NucleotideSequence) else 2 if isinstance(r, seq.ProteinSequence) else 0
             return push(r, ar, lambda s, txt: f"{kind} {len(s.get_alphabet())} {txt}")
         if op == "k_fuse":
-            ka = KmerAlphabet(seq.Alphabet(range(int(w[1]))), int(w[2]))
+            ka = KA(int(w[1]), RA(int(w[1])), int(w[2]))
             return "ok " + str(int(ka.fuse(arr(w[3], _pints(w[4])))))
+        if op == "k_fuse2":
+            ka = KA(int(w[1]), RA(int(w[1])), int(w[2]))
+            rows = [[int(x) for x in r.split(".")] for r in w[4].split(";")]
+            return "ok " + _ints(ka.fuse(np.array(rows, dtype=NPDT[w[3].partition("@")[0]])))
         if op == "k_split":
-            ka = KmerAlphabet(seq.Alphabet(range(int(w[1]))), int(w[2]))
-            return "ok " + _ints(ka.split(int(w[3])))
+            ka = KA(int(w[1]), RA(int(w[1])), int(w[2]))
+            return "ok " + _ints(ka.split(_index(w[3])))
+        if op == "k_splitv":
+            ka = KA(int(w[1]), RA(int(w[1])), int(w[2]))
+            r = ka.split(np.array(_pints(w[3]), dtype=np.int64))
+            return "ok " + ";".join(".".join(str(int(x)) for x in row) for row in r)
+        if op == "k_info":
+            sp = None if w[3] == "-" else w[3][1:] if w[3][0] == "m" else _pints(w[3])
+            ka = KA(int(w[1]), RA(int(w[1])), int(w[2]), sp)
+            spc = ka.spacing
+            if ka.base_alphabet is not RA(int(w[1])):
+                return "ok base-alphabet-differs"
+            return f"ok {len(ka)} {ka.k} {'-' if spc is None else _ints(spc)} {int(ka.kmer_array_length(int(w[4])))}"
         if op == "k_kmers":
             sp = None if w[3] == "-" else w[3][1:] if w[3][0] == "m" else _pints(w[3])
-            ka = KmerAlphabet(seq.Alphabet(range(int(w[1]))), int(w[2]), sp)
+            ka = KA(int(w[1]), RA(int(w[1])), int(w[2]), sp)
             return "ok " + _ints(ka.create_kmers(arr(w[4], _pints(w[5]))))
         if op == "k_enc":
-            a = _A(w[1])
-            ka = KmerAlphabet(a.alph, int(w[2]))
+            a = A(w[1])
+            ka = KA(w[1], a.alph, int(w[2]))
             return "ok " + str(int(ka.encode(a.syms(_ptoks(w[3])))))
         if op == "k_dec":
-            a = _A(w[1])
-            ka = KmerAlphabet(a.alph, int(w[2]))
+            a = A(w[1])
+            ka = KA(w[1], a.alph, int(w[2]))
             return "ok " + a.show(ka.decode(int(w[3])))
         if op == "c_tbl":
             aa = "" if w[1] == "_" else w[1]
@@ -545,6 +706,45 @@ def run_impl(case):
                 return "ok " + (str(p) or "_")
             prots, pos = s.translate(complete=False, codon_table=tab[0], met_start=(w[2] == "1"))
             return "ok " + (";".join(f"{p}@{int(a)}-{int(b)}" for p, (a, b) in zip(prots, pos)) or "_")
+        if op == "c_tr0":
+            dna = "" if w[3] == "_" else w[3]
+            s = seq.NucleotideSequence(dna)
+            if w[1] == "1":
+                return "ok " + (str(s.translate(complete=True)) or "_")
+            prots, pos = s.translate(met_start=(w[2] == "1"))
+            return "ok " + (";".join(f"{p}@{int(a)}-{int(b)}" for p, (a, b) in zip(prots, pos)) or "_")
+        if op == "c_names":
+            return "ok " + ";".join(n.replace(" ", "~") for n in seq.CodonTable.table_names())
+        if op in ("c_dict", "c_eq2", "c_codons"):
+            if table[0] is None or (op == "c_eq2" and table2[0] is None):
+                return "ERR:notable"
+            t = table[0]
+            if op == "c_eq2":
+                eq = t == table2[0]
+                if (t != table2[0]) == eq:
+                    return "ok eq-and-ne-agree"
+                return "ok " + ("true" if eq else "false")
+            if op == "c_codons":
+                codons = t[w[1]]
+                code = seq.ProteinSequence.alphabet.encode(w[1])
+                nuc = seq.NucleotideSequence.alphabet_unamb
+                by_code = ["".join(nuc.decode_multiple(np.array(c))) for c in t[code]]
+                if list(codons) != by_code:
+                    return "ok lookup-by-symbol-and-by-code-differ"
+                return "ok " + _toks(codons)
+            d = t.codon_dict()
+            dc = t.codon_dict(code=True)
+            nuc = seq.NucleotideSequence.alphabet_unamb
+            prot = seq.ProteinSequence.alphabet
+            for codon, aa in d.items():
+                cc = tuple(int(x) for x in nuc.encode_multiple(codon))
+                if prot.decode(dc[cc]) != aa or int(t[cc]) != dc[cc] or \
+                        bool(t.is_start_codon(np.array(cc))) != (codon in t.start_codons()) or \
+                        int(t.map_codon_codes(np.array([cc]))[0]) != dc[cc]:
+                    return "ok codon_dict-views-differ"
+            aa = "".join(d[c] for c in RADIX_CODONS)
+            starts = [16 * nuc.encode(c[0]) + 4 * nuc.encode(c[1]) + nuc.encode(c[2]) for c in t.start_codons()]
+            return "ok " + aa + " " + _ints(starts)
         if op == "c_get":
             if table[0] is None:
                 return "ERR:notable"
@@ -1232,6 +1432,108 @@ def corpus():
         {"kind": "sequence-eq", "ops": ["s_new L:65,67,71,84 65,65,67,71,84", "s_new L:84,71,67,65 84,84,71,67,65", "s_code 0", "s_code 1",
                                         "s_eq 0 1", "s_eq 1 0", "s_eq 0 0", "s_nuc 65,65,67,71,84", "s_eq 0 2", "s_eq 2 0"]},
     ]
+
+
+
+# ---------------------------------------------------------------- crash isolation: the real code runs in a forked worker
+class _Worker:
+    """One long-lived forked child executes the cases; if it dies (segfault in a compiled extension) or hangs, the case
+    it was working on gets `CRASH` lines — an oracle failure with that case as the failing input — and a new child is
+    forked for the next case."""
+
+    def __init__(self):
+        self.pid = None
+
+    def _start(self):
+        import pickle  # noqa: F401
+        self.to_r, self.to_w = os.pipe()
+        self.from_r, self.from_w = os.pipe()
+        pid = os.fork()
+        if pid == 0:
+            os.close(self.to_w)
+            os.close(self.from_r)
+            try:
+                self._serve()
+            finally:
+                os._exit(0)
+        os.close(self.to_r)
+        os.close(self.from_w)
+        self.pid = pid
+
+    def _serve(self):
+        import pickle
+        import struct
+        inp = os.fdopen(self.to_r, "rb")
+        outp = os.fdopen(self.from_w, "wb")
+        while True:
+            head = inp.read(4)
+            if len(head) < 4:
+                return
+            case = pickle.loads(inp.read(struct.unpack("<I", head)[0]))
+            try:
+                res = _run_local(case)
+            except BaseException as e:  # noqa: BLE001
+                res = [f"UNCAUGHT:{type(e).__name__}"] * len(case.get("ops") or [])
+            data = pickle.dumps(res)
+            outp.write(struct.pack("<I", len(data)) + data)
+            outp.flush()
+
+    def _kill(self):
+        import signal
+        try:
+            os.kill(self.pid, signal.SIGKILL)
+        except OSError:
+            pass
+        try:
+            os.waitpid(self.pid, 0)
+        except OSError:
+            pass
+        for fd in (self.to_w, self.from_r):
+            try:
+                os.close(fd)
+            except OSError:
+                pass
+        self.pid = None
+
+    def run(self, case, timeout=120):
+        import pickle
+        import select
+        import struct
+        if self.pid is None:
+            self._start()
+        data = pickle.dumps({"ops": list(case.get("ops") or [])})
+        try:
+            os.write(self.to_w, struct.pack("<I", len(data)) + data)
+            buf = b""
+            need = 4
+            size = None
+            while True:
+                r, _, _ = select.select([self.from_r], [], [], timeout)
+                if not r:
+                    raise TimeoutError
+                chunk = os.read(self.from_r, 1 << 16)
+                if not chunk:
+                    raise EOFError
+                buf += chunk
+                if size is None and len(buf) >= 4:
+                    size = struct.unpack("<I", buf[:4])[0]
+                    need = 4 + size
+                if size is not None and len(buf) >= need:
+                    return pickle.loads(buf[4:need])
+        except (EOFError, TimeoutError, OSError) as e:
+            self._kill()
+            tag = "CRASH:timeout" if isinstance(e, TimeoutError) else "CRASH"
+            return [tag] * len(case.get("ops") or [])
+
+
+_WORKER = _Worker()
+
+
+def run_impl(case):
+    """The real code, op by op — executed in the worker process (see `_Worker`)."""
+    if os.environ.get("VERIF_C03_INPROCESS") == "1":
+        return _run_local(case)
+    return _WORKER.run(case)
 
 
 # ---------------------------------------------------------------- property oracle (independent of the Lean model)
